@@ -90,6 +90,20 @@ def sym_int(x=0, base=None):
     return _real_int(x) if base is None else _real_int(x, base)
 
 
+def _int_from_bytes(b, byteorder="big", signed=False):
+    if isinstance(b, SymBytes):
+        if signed:
+            raise EngineUnsupported("int.from_bytes(signed=True) of symbolic bytes")
+        v = b if byteorder == "big" else b[::-1]
+        r = SymInt(z3.simplify(v.value()))
+        from .core import Flags
+        return Flags.int_lift(r) if Flags.int_lift is not None else r
+    return _real_int.from_bytes(b, byteorder, signed=signed)
+
+
+sym_int.from_bytes = _int_from_bytes
+
+
 def sym_isinstance(o, c):
     cs = c if _real_isinstance(c, tuple) else (c,)
     cs = tuple(_real_int if x is sym_int else x for x in cs)
